@@ -1,6 +1,7 @@
 package props
 
 import (
+	"bytes"
 	"encoding/json"
 	"errors"
 	"fmt"
@@ -100,6 +101,14 @@ func checkC08(c caseC08) (sig, msg string) {
 		sr.Steps = nil // deliver as much as each Read asks for, then the failure
 	}
 	rd, _ := wrappedStream(c.Reader, sr)
+	if c.Failure == "EOF" && (c.Reader == "bytes.Buffer" || c.Reader == "bytes.Reader") {
+		// the stream simply ends: a buffer that holds the prefix and no more
+		if c.Reader == "bytes.Buffer" {
+			rd = bytes.NewBuffer(append([]byte(nil), prefix...))
+		} else {
+			rd = bytes.NewReader(prefix)
+		}
+	}
 	got := readFrom(rd, len(c.Frame), func() interface{} {
 		return vf.Failure{Property: "C08", Kind: "hang", Case: mustJSON(c), Signature: "hang"}
 	})
@@ -214,7 +223,10 @@ func TestC08(t *testing.T) {
 			if c.Delivery == "bytewise" && k > 4096 {
 				c.Delivery = "contiguous"
 			}
-			c.Reader = rapid.SampledFrom([]string{"script", "script", "script", "bufio16", "bufio4096"}).Draw(t, "reader")
+			c.Reader = rapid.SampledFrom([]string{"script", "script", "script", "bufio16", "bufio4096", "chunklen", "bytes.Buffer", "bytes.Reader"}).Draw(t, "reader")
+			if (c.Reader == "bytes.Buffer" || c.Reader == "bytes.Reader") && c.Failure != "EOF" {
+				c.Reader = "chunklen" // in-memory readers can only end, not fail
+			}
 			sig, msg := checkC08(c)
 			nt, class := c08Class(c)
 			r.Case(vf.FPs(string(frame), fmt.Sprint(c.Cut, c.Failure, c.Together, c.Delivery, c.Chunks, c.Reader, c.NonSticky)), nt, kind+"/"+class, func() interface{} {
